@@ -32,8 +32,23 @@ def run_property(prop: str, tier: str, seed: int) -> int:
         rep = Report(prop)
         mod.run(repo, rep)
         extra = None
-        if tier == 'thorough' and hasattr(mod, 'thorough'):
-            extra = mod.thorough(repo, rep, seed)
+        if tier == 'thorough':
+            # the static rules already cover every path / cell / interval of the current tree; the thorough
+            # tier additionally measures the checker itself on must-fire / must-stay-silent variants of the
+            # tree (scratch copies, removed afterwards).  These numbers never decide the exit code.
+            from .selftest import run_all
+            st = run_all(prop, jobs=int(os.environ.get('VERIF_JOBS', '16')))
+            extra = {
+                'programs': st['variants'],
+                'selftest': {k: st[k] for k in ('variants', 'must_fire', 'fired', 'must_stay_silent', 'silent', 'skipped')},
+                'selftest_wrong': [{'variant': r['variant'], 'rc': r.get('rc')} for r in st['wrong']],
+                'selftest_samples': [{'variant': r['variant'], 'expect': r.get('expect'), 'status': r['status'],
+                                      'rules': r.get('rules', [])} for r in st['results'][:40]],
+            }
+            print('%s selftest: must-fire %d/%d, must-stay-silent %d/%d, skipped %d'
+                  % (prop, st['fired'], st['must_fire'], st['silent'], st['must_stay_silent'], st['skipped']))
+            if hasattr(mod, 'thorough'):
+                extra.update(mod.thorough(repo, rep, seed) or {})
         return finish(rep, tier, seed, t0, dict(sorted(repo.consulted.items())), extra)
     except AnalysisError as exc:
         print('ANALYSIS-ERROR property=%s %s' % (prop, exc))
